@@ -90,6 +90,34 @@ def rule_ragged_pair(ctx, tu):
                   "for each endpoint a in %s" % sorted(inc),
                   "push_back counts %r differ from neighbour-count increments %r: the ragged extent "
                   "mesh_neighbor_n[a] no longer equals the row length" % (per, inc))
+    # ... and under the same conditions: a push that a `continue` / `if` skips while the count still advances (or the reverse)
+    # leaves mesh_neighbor_n[a] different from the row length
+    recs = []
+
+    def on_atom(node, facts):
+        for x in walk(node):
+            for s_ in cxa.stores_of_node(x):
+                if s_.base is None or s_.base[0] != "field" or subscript(s_.target) is None:
+                    continue
+                a_ = repr(cxa.poly(subscript(s_.target)[1]))
+                if s_.base[1] == "mesh_neighbor_n" and (s_.op == "++" or (s_.op == "+=" and cxa.const_int(s_.rhs) == 1)):
+                    recs.append(("count", a_, frozenset(facts), s_))
+                elif s_.how == "method" and s_.op == "push_back":
+                    recs.append((s_.base[1], a_, frozenset(facts), s_))
+    cxa.canon_facts(f.body, on_atom=on_atom)
+    for a_ in sorted({r[1] for r in recs}):
+        conds = {}
+        for kind_, aa, fc, s_ in recs:
+            if aa == a_:
+                conds.setdefault(kind_, set()).add(frozenset(t for t in fc if isinstance(t[0], str)))
+        base = conds.get("count")
+        for kind_, cs in sorted(conds.items()):
+            if kind_ == "count" or base is None:
+                continue
+            ctx.check(cs == base, R, f.node, f.qual, "%s[%s].push_back under the conditions of ++mesh_neighbor_n[%s]" % (kind_, a_, a_),
+                      "count and row grow on exactly the same paths", "the row %s[%s] grows under %s but its count under %s: on some "
+                      "path mesh_neighbor_n[%s] differs from the row length, loops bounded by it run past the row" % (
+                          kind_, a_, sorted(sorted(x) for x in cs)[:1], sorted(sorted(x) for x in base)[:1], a_))
     # the count table is sized before use and rows exist for every cell
     ctx.floor(R, 3)
 
@@ -401,10 +429,9 @@ def rule_sentinel(ctx, tu, I):
     ctx.floor(R, 6)
 
 
-def rule_static(ctx, tu):
+def rule_static(ctx, tu, R="C11.STATIC"):
     """a function-local static container is sized once per process: a later simulation with larger extents indexes
     it out of bounds"""
-    R = "C11.STATIC"
     n_ok = 0
     for f in tu.all_fns():
         if f.body is None:
@@ -415,7 +442,8 @@ def rule_static(ctx, tu):
                 if t.startswith("const "):
                     continue
                 ctx.violation(R, n, f.qual, text(n)[:80], "function-local static object: it is constructed (sized) once per "
-                              "process, so a later simulation with other extents reads / writes outside it")
+                              "process and keeps its content between simulations, so a later simulation with other extents reads / "
+                              "writes outside it and a run depends on what ran before in the process")
         n_ok += 1
     ctx.ok(R, None, "engine", "%d functions without mutable function-local statics" % n_ok, nontrivial=False)
 
